@@ -172,6 +172,11 @@ func (e *FnEnc) modTargetsOf(x Expr, env *specEnv, src string) []modTarget {
 				allow: func(x string) string { return seq(x, r) }})
 		}
 		return ts
+	case *ECall:
+		if n.Fun == "closed" && len(n.Args) == 1 {
+			r := env.eval(n.Args[0]).L[0]
+			return []modTarget{{name: "C/closed", sort: "(Array Int Bool)", ref: r, allow: func(x string) string { return seq(x, r) }}}
+		}
 	case *EIdent:
 		// a captured variable of a closure: the cell the free variable points to
 		if fv, ok := e.fvPtrs[n.Name]; ok {
@@ -762,7 +767,19 @@ func (e *FnEnc) encBuiltin(b *ssa.Builtin, cc *ssa.CallCommon, instr *ssa.Call, 
 	case "print", "println":
 		return nil
 	case "close":
-		e.note("close(chan) treated as a no-op")
+		// closing a nil or an already closed channel panics: the "closed" bit of a channel is a heap location
+		// (C/closed, see closed(c) in contracts); the obligation is generated where the contract lists the kind
+		// `close` (`nopanic close,...`), elsewhere the call only sets the bit
+		c := arg(0)
+		arr := e.heapArr("C/closed", "(Array Int Bool)")
+		cond := sand(snot(seq(c.L[0], "0")), snot("(select "+arr+" "+c.L[0]+")"))
+		if e.c.NoPanic && e.c.NoPanicKinds["close"] {
+			if e.pass == 2 {
+				e.oblige("close", e.posLabel(pos, "close of channel"), cond, pos)
+			}
+			e.assume(cond)
+		}
+		e.setHeap("C/closed", "(Array Int Bool)", "(store "+arr+" "+c.L[0]+" true)")
 		return nil
 	case "recover":
 		v := e.zeroVal(types.NewInterfaceType(nil, nil))
@@ -916,9 +933,11 @@ func (e *FnEnc) encAppend(cc *ssa.CallCommon, pos token.Pos) *Val {
 			newRead := e.rowRead("(select "+nwA+" "+base+")", inner, off, "k")
 			oldRead := e.rowRead(oldInner, inner, s.L[1], "k")
 			tailRead := e.rowRead("(select "+a+" "+tail.L[0]+")", inner, tail.L[1], e.idxSub("k", s.L[2]))
-			e.assume(fmt.Sprintf("(forall ((k %s)) (! (and (=> %s (= %s %s)) (=> %s (= %s %s))) :pattern (%s)))", ix,
+			// (a read of the old slice also triggers it: an element known to be somewhere in the old slice is
+			// then known to be at the same index of the result)
+			e.assume(fmt.Sprintf("(forall ((k %s)) (! (and (=> %s (= %s %s)) (=> %s (= %s %s))) :pattern (%s) :pattern (%s)))", ix,
 				sand(e.idxLe(e.idxConst(0), "k"), e.idxLt("k", s.L[2])), newRead, oldRead,
-				sand(e.idxLe(s.L[2], "k"), e.idxLt("k", newLen)), newRead, tailRead, newRead))
+				sand(e.idxLe(s.L[2], "k"), e.idxLt("k", newLen)), newRead, tailRead, newRead, oldRead))
 		}
 	}
 	return &res
